@@ -1,6 +1,5 @@
 /- kernel-checked lifts of the tier-N template / sweep / scan checkers to per-cell statements -/
 import FastQr.Finite.Template
-import FastQr.Finite.Sweep
 import FastQr.Finite.Scan
 import FastQr.Proofs.Lift
 
